@@ -74,7 +74,8 @@ RunResult run_w2f(const Plan& pl) {
                         else { V3 w = (b - a).cross(d - a); double nrm = w.norm(); if (nrm == 0) continue; V3 n = w / nrm; double geff = c.tension[v.ftype[f] % 3] + mef; R[i] += n.cross(d - b) * (-0.5 * geff); R[j] += n.cross(a - d) * (-0.5 * geff); R[k] += n.cross(b - a) * (-0.5 * geff); } }
                     double Rabs = 0, worst = 0; size_t wi = 0; for (size_t i = 0; i < F.size(); i++) if (v.nused[i]) { Rabs += R[i].norm(); double e = (F[i] - R[i]).norm(); if (e > worst) { worst = e; wi = i; } }
                     double D = std::max({std::fabs(g.centroid_area.x), std::fabs(g.centroid_area.y), std::fabs(g.centroid_area.z)});
-                    double tol = (1e-9 + 1e-14 * std::pow(1 + D / L, 3)) * std::max(Fabs, Rabs) / std::max<size_t>(1, F.size()) * 50 + 1e-300;
+                    double fmx = 0; for (size_t i = 0; i < F.size(); i++) if (v.nused[i]) fmx = std::max(fmx, std::max(F[i].norm(), R[i].norm()));
+                    double tol = (1e-6 + 1e-14 * std::pow(1 + D / L, 3)) * fmx + 1e-300;   // (A/At - 1) and ln(V/Vt) cancel digits when the cell is close to its target
                     if (worst > tol) { who << "force on node " << wi << " differs from " << (is_p ? "P dV/dx" : "-sum gamma_eff dA/dx") << " by " << worst << " (|f| " << F[wi].norm() << ", reference " << R[wi].norm() << ")"; res.fail("C02", std::string("force_law.") + c.name, who.str()); break; }
                     res.probes.hit("force_law_checked");
                 }
@@ -87,7 +88,7 @@ RunResult run_w2f(const Plan& pl) {
                     zero_forces(*cc); cc->apply_internal_forces(0.0); res.sim_iterations++;
                     std::vector<V3> F2 = forces_of(*cc); double worst = 0; for (size_t i = 0; i < F.size(); i++) if (v.nused[i]) worst = std::max(worst, (F2[i] - Rm * F[i]).norm());
                     double fmax = 0; for (auto& f : F) fmax = std::max(fmax, f.norm());
-                    if (worst > 1e-6 * fmax) { who << "after a rigid motion of the cell the force field is not the rotated field (max deviation " << worst << ", max force " << fmax << ")"; res.fail("C02", std::string("rigid_motion.") + c.name, who.str()); break; }
+                    if (worst > 1e-6 / std::max(minq, 1e-6) * fmax) { who << "after a rigid motion of the cell the force field is not the rotated field (max deviation " << worst << ", max force " << fmax << ")"; res.fail("C02", std::string("rigid_motion.") + c.name, who.str()); break; }
                     res.probes.hit("rigid_motion_checked");
                 }
                 for (auto& f : F) { log.addd(f.x); log.addd(f.y); log.addd(f.z); }
